@@ -219,7 +219,8 @@ func (c *cls) staleForSure(r *Run) bool {
 	return c.haveAge && c.lifeHi != inf && c.ageLo >= satAdd(c.lifeHi, c.guard(r))
 }
 func (c *cls) freshForSure(r *Run) bool {
-	return c.haveAge && c.ageHi != inf && satAdd(c.ageHi, c.guard(r)) < c.lifeLo
+	// "fresh by more than a second" (the margin of C09): a cache may round lifetimes to whole seconds
+	return c.haveAge && c.ageHi != inf && satAdd(c.ageHi, sec) < c.lifeLo
 }
 
 func ns(d int64) string {
@@ -665,6 +666,8 @@ func judgeFidelity(r *Run, j *Judged, c *cls) {
 		// every 304 that may have contributed header fields: concurrent (background) validations work on
 		// copies of the entry and overwrite each other, so the history need not be a linear chain - any 304
 		// of this resource whose request carried validators that B or a later 304 of it ever had qualifies
+		// (a 304 that answered a client's own conditional may have been merged too: then any 304 qualifies)
+		clientCond := r.clientConditionalSince(c.B, c.H.SeqResp+1)
 		ets, lms := map[string]bool{"": true}, map[string]bool{"": true}
 		note := func(h http.Header) { ets[h.Get("Etag")], lms[h.Get("Last-Modified")] = true, true }
 		note(c.B.Header)
@@ -675,7 +678,7 @@ func judgeFidelity(r *Run, j *Judged, c *cls) {
 					continue
 				}
 				inm, ims := o.Req.Header.Get("If-None-Match"), o.Req.Header.Get("If-Modified-Since")
-				if !((inm != "" && ets[inm]) || (inm == "" && ims != "" && lms[ims])) {
+				if !clientCond && !((inm != "" && ets[inm]) || (inm == "" && ims != "" && lms[ims])) {
 					continue // (If-Modified-Since may also be the client's own)
 				}
 				chain = append(chain, o)
